@@ -46,11 +46,27 @@ pub enum Poison {
     WrongSecretReveal,
 }
 
+/// A cheap operation repeated many times before the case (a process that
+/// has been in service for a while): counters that saturate or wrap, "every
+/// Nth call" paths, slots that fill up.
+#[derive(Clone, Copy, Debug, PartialEq, Eq, Serialize, Deserialize)]
+pub enum SoakOp {
+    DecodeControl,
+    DecodeData,
+    Greedy,
+    EncodeControl,
+    EncodeAvp,
+    HideReveal,
+    FailedDecode,
+}
+
 #[derive(Clone, Debug, PartialEq, Eq, Serialize, Deserialize)]
 pub enum Env {
     After(Poison),
     Unwinding,
     AfterThenUnwinding(Poison),
+    /// `count` repetitions of `op` on this thread before the case
+    AfterMany { op: SoakOp, count: u32 },
 }
 
 impl Env {
@@ -61,6 +77,7 @@ impl Env {
             Env::AfterThenUnwinding(p) => format!(
                 "inside a destructor while the thread unwinds, right after a refused operation on the same thread ({p:?})"
             ),
+            Env::AfterMany { op, count } => format!("after {count} repetitions of {op:?} on the same thread"),
         }
     }
 }
@@ -190,6 +207,49 @@ pub fn run_poison(p: &Poison) {
     });
 }
 
+/// Repeat a small operation `count` times (results ignored).
+pub fn run_soak(op: SoakOp, count: u32) {
+    let mut w = VecWriter::new();
+    control(ordinary_avps(2)).write(&mut w);
+    let ctl = w.data.clone();
+    let data: Vec<u8> = vec![0x00, 0x02, 0x00, 0x01, 0x00, 0x02, 0xde, 0xad];
+    let rv = types::RandomVector::from([5u8, 6, 7, 8]);
+    let _ = guard(|| {
+        for _ in 0..count {
+            match op {
+                SoakOp::DecodeControl => {
+                    let mut r = SliceReader::from(&ctl[..]);
+                    let _ = Message::<&[u8]>::try_read(&mut r);
+                }
+                SoakOp::DecodeData => {
+                    let mut r = SliceReader::from(&data[..]);
+                    let _ = Message::<&[u8]>::try_read(&mut r);
+                }
+                SoakOp::Greedy => {
+                    let mut r = SliceReader::from(&ctl[12..]);
+                    let _ = AVP::try_read_greedy::<&[u8]>(&mut r);
+                }
+                SoakOp::EncodeControl => {
+                    let mut w = VecWriter::new();
+                    control(ordinary_avps(1)).write(&mut w);
+                }
+                SoakOp::EncodeAvp => {
+                    let mut w = VecWriter::new();
+                    host_name(5).write(&mut w);
+                }
+                SoakOp::HideReveal => {
+                    let h = host_name(20).hide(b"soak", &rv, &[0u8; 4], &[0u8; 16]);
+                    let _ = h.reveal(b"soak", &rv);
+                }
+                SoakOp::FailedDecode => {
+                    let mut r = SliceReader::from(&ctl[..ctl.len() - 3]);
+                    let _ = Message::<&[u8]>::try_read(&mut r);
+                }
+            }
+        }
+    });
+}
+
 struct UnrelatedUnwind;
 
 struct RunInDrop<F: FnOnce()>(Option<F>);
@@ -236,14 +296,38 @@ pub fn in_env<R>(env: Option<&Env>, f: impl FnOnce() -> R) -> R {
             run_poison(p);
             while_unwinding(f)
         }
+        Some(Env::AfterMany { op, count }) => {
+            run_soak(*op, *count);
+            f()
+        }
     }
 }
 
 pub fn draw_env(rng: &mut Rng) -> Env {
-    match rng.below(8) {
-        0..=4 => Env::After(draw_poison(rng)),
-        5 | 6 => Env::Unwinding,
-        _ => Env::AfterThenUnwinding(draw_poison(rng)),
+    match rng.below(40) {
+        0..=23 => Env::After(draw_poison(rng)),
+        24..=32 => Env::Unwinding,
+        33..=38 => Env::AfterThenUnwinding(draw_poison(rng)),
+        _ => {
+            // counts around the powers of two
+            let k = *rng.pick(&[4u32, 7, 8, 8, 8, 10, 12, 16]);
+            let count = ((1u32 << k) as i64 + *rng.pick(&[-1i64, 0, 1, 1])) as u32;
+            // the long runs with the cheapest operations only
+            let op = if k >= 12 {
+                *rng.pick(&[SoakOp::DecodeData, SoakOp::DecodeControl, SoakOp::EncodeAvp, SoakOp::FailedDecode])
+            } else {
+                *rng.pick(&[
+                    SoakOp::DecodeControl,
+                    SoakOp::DecodeData,
+                    SoakOp::Greedy,
+                    SoakOp::EncodeControl,
+                    SoakOp::EncodeAvp,
+                    SoakOp::HideReveal,
+                    SoakOp::FailedDecode,
+                ])
+            };
+            Env::AfterMany { op, count }
+        }
     }
 }
 
